@@ -73,7 +73,7 @@ IDManager::GetHeartBeater()  //
       if (++id >= kMaxThreadNum) {
         id = 0;
       }
-    } while (_id_vec[id].load(kRelaxed) || _id_vec[id].exchange(true, kRelaxed));
+    } while (_id_vec[id].load(kRelaxed) || _id_vec[id].exchange(true, kAcquire));
     hb.SetID(id);
   }
   return hb;
@@ -84,8 +84,10 @@ IDManager::GetHeartBeater()  //
  *############################################################################*/
 
 IDManager::HeartBeater::~HeartBeater()
-{  //
-  _id_vec[*id_].store(false, kRelaxed);
+{
+  const auto id = *id_;
+  id_.reset();  // expire the heartbeat before the ID can be reused
+  _id_vec[id].store(false, kRelease);
 }
 
 auto
